@@ -18,7 +18,7 @@ func init() { Register(c09{}) }
 func (c09) ID() string    { return "C09" }
 func (c09) Level() string { return "fault_enumeration" }
 func (c09) Rule() string {
-	return "workload = seeded writer history (shape x page size x codec x batch grammar) x destination kind {io.Writer only; io.Writer+StringWriter+ByteWriter+ReaderFrom}; cases = for EVERY sink call k of the fault-free run: err0 transient (always) and torn/err0-sticky/torn-sticky (quick: seeded 1-in-4 of k, thorough: every k; 1% of thorough workloads are of the large class - pages of 100..1200 records - and sample these kinds 1-in-4). A case is non-trivial when its fault actually fired (the sink returned the injected error); distinct = distinct (workload digest, k, kind)."
+	return "workload = seeded writer history (shape x page size x codec x batch grammar) x destination kind {io.Writer only; io.Writer+StringWriter+ByteWriter+ReaderFrom}; cases = for EVERY sink call k of the fault-free run: err0 transient (always) and torn / full (all bytes accepted, and an error) / err0-sticky / torn-sticky, each returning one of six error values (plain, net.Error-like temporary+timeout, wrapped EAGAIN, io.ErrShortWrite, io.ErrUnexpectedEOF, os.ErrClosed) (quick: seeded 1-in-4 of k, thorough: every k; 1% of thorough workloads are of the large class - pages of 100..1200 records - and sample these kinds 1-in-4). A case is non-trivial when its fault actually fired (the sink returned the injected error); distinct = distinct (workload digest, k, kind)."
 }
 func (c09) Assumptions() []string {
 	return []string{
@@ -28,7 +28,7 @@ func (c09) Assumptions() []string {
 	}
 }
 func (c09) Probes() []string {
-	return []string{"fired/New/magic", "fired/Write/page-header", "fired/Write/page-body", "fired/Close/footer", "fired/Close/footer-len", "fired/Close/tail-magic", "fired/kind/torn", "fired/kind/err0-sticky", "codec/gzip", "codec/snappy", "codec/uncompressed", "sink-kind/w", "sink-kind/wx"}
+	return []string{"fired/New/magic", "fired/Write/page-header", "fired/Write/page-body", "fired/Close/footer", "fired/Close/footer-len", "fired/Close/tail-magic", "fired/kind/torn", "fired/kind/full", "fired/kind/err0-sticky", "fired/error-flavor/temporary", "fired/error-flavor/eagain", "codec/gzip", "codec/snappy", "codec/uncompressed", "sink-kind/w", "sink-kind/wx"}
 }
 func (c09) Runs(tier string) int {
 	if tier == "thorough" {
@@ -111,12 +111,14 @@ func (p c09) Run(runseed uint64, tier string, acc *Acc) []*core.Violation {
 	var vios []*core.Violation
 	nontrivial := 0
 	for k := 1; k <= n; k++ {
-		kinds := []core.SinkFault{{K: k, Kind: "err0"}}
+		fl := func() string { return core.Flavors[r.Intn(len(core.Flavors))] } // what kind of error value the sink returns
+		kinds := []core.SinkFault{{K: k, Kind: "err0", Flavor: fl()}}
 		if (tier == "thorough" && !w.Large) || r.Chance(1, 4) {
 			kinds = append(kinds,
-				core.SinkFault{K: k, Kind: "torn", Arg: r.Intn(1 << 16)},
-				core.SinkFault{K: k, Kind: "err0", Sticky: true},
-				core.SinkFault{K: k, Kind: "torn", Arg: r.Intn(1 << 16), Sticky: true})
+				core.SinkFault{K: k, Kind: "torn", Arg: r.Intn(1 << 16), Flavor: fl()},
+				core.SinkFault{K: k, Kind: "full", Flavor: fl()},
+				core.SinkFault{K: k, Kind: "err0", Sticky: true, Flavor: fl()},
+				core.SinkFault{K: k, Kind: "torn", Arg: r.Intn(1 << 16), Sticky: true, Flavor: fl()})
 		}
 		for i := range kinds {
 			c := &core.Case{Prop: "C09", Seed: runseed, W: w, SinkFault: &kinds[i], SinkKind: sinkKind}
@@ -130,6 +132,7 @@ func (p c09) Run(runseed uint64, tier string, acc *Acc) []*core.Violation {
 					kind += "-sticky"
 				}
 				acc.Inc("fired/kind/" + kind)
+				acc.Inc("fired/error-flavor/" + kinds[i].Flavor)
 				acc.Inc("fired/" + sigClassAPI(ref.Sink.Calls[k-1].API) + "/" + regions[k-1])
 			}
 			if k == n/2 && i == 0 {
@@ -228,7 +231,14 @@ func (p c09) Shrink(c *core.Case) []*core.Case {
 		n.SinkKind = "w"
 		out = append(out, &n)
 	}
-	if f.Kind == "torn" {
+	if f.Flavor != "" && f.Flavor != "plain" {
+		n := *c
+		g := f
+		g.Flavor = ""
+		n.SinkFault = &g
+		out = append(out, &n)
+	}
+	if f.Kind == "torn" || f.Kind == "full" {
 		n := *c
 		g := f
 		g.Kind = "err0"
